@@ -1,8 +1,12 @@
 #!/usr/bin/env python3
 """Prints the markdown table of /verif/seeded (for DESIGN.md section 9.5)."""
 import json, glob, re
+import os
+sweep = {}
+if os.path.exists('/verif/seeded_sweep.json'):
+    sweep = json.load(open('/verif/seeded_sweep.json'))
 rows = []
-for f in sorted(glob.glob('/verif/seeded/*/meta.json'), key=lambda p: (re.sub(r'^S2?-', '', p.split('/')[-2]), p)):
+for f in sorted(glob.glob('/verif/seeded/*/meta.json'), key=lambda p: (re.sub(r'^S[0-9]?-', '', p.split('/')[-2]), p)):
     m = json.load(open(f))
     r = m.get('checks_run_against_it', {})
     caught = [p for p, v in r.items() if v['exit'] == 1]
@@ -16,8 +20,17 @@ for f in sorted(glob.glob('/verif/seeded/*/meta.json'), key=lambda p: (re.sub(r'
     def short(s, n):
         s = re.sub(r'\s+', ' ', str(s)).replace('|', '/')
         return s if len(s) <= n else s[:n - 1] + '…'
+    sw = sweep.get(m['id'])
+    rate = ''
+    if sw and sw.get('seeds'):
+        k = sum(1 for v in sw['seeds'].values() if v == 1)
+        rate = ' [%s: %d/%d seeds]' % (sw['property'], k, len(sw['seeds']))
+        if k and sw['property'] not in caught:
+            caught.append(sw['property'])
+    if m.get('neutralised_by'):
+        rate = ' [no longer a defect: ' + m['neutralised_by'] + ']'
     rows.append('| %s | %s | %s | %s | %s |' % (m['id'], m['breaks_property'], short(m.get('summary', ''), 170), short(m.get('needs', ''), 130),
-                                              (', '.join(caught) + (' (' + clause + ')' if clause else '')) if caught else '**not caught**'))
+                                              ((', '.join(caught) + (' (' + clause + ')' if clause else '')) if caught else '**not caught**') + rate))
 print('| id | property | change | needs | caught by (quick tier) |')
 print('|---|---|---|---|---|')
 print('\n'.join(rows))
